@@ -53,10 +53,13 @@ type c11Hist struct {
 	Concurrent bool `json:"concurrent"`
 	Struct     bool `json:"struct_elements"`
 	// AltStruct: the struct elements are of a type called c11S too, but declared in another package
-	AltStruct bool       `json:"struct_type_of_another_package_with_the_same_name,omitempty"`
-	AutoClear bool       `json:"auto_clear"`
-	AutoClean bool       `json:"auto_clean"`
-	Cycles    []c11Cycle `json:"cycles"`
+	AltStruct bool `json:"struct_type_of_another_package_with_the_same_name,omitempty"`
+	AutoClear bool `json:"auto_clear"`
+	AutoClean bool `json:"auto_clean"`
+	// Prefix: the name pattern handed to morass.New for the sorter's directory and run files ("" = "run"); a '*' in it is
+	// replaced by the random part of the name, as ioutil.TempFile documents
+	Prefix string     `json:"prefix,omitempty"`
+	Cycles []c11Cycle `json:"cycles"`
 	// Elem: flavour of the struct element type: "" (c11S), "gob-registered" / "gob-registered-by-name" (the harness has
 	// registered the type with gob itself), "rich" (string, float, bool, nested struct, slice and map fields)
 	Elem string `json:"struct_flavour,omitempty"`
@@ -113,6 +116,9 @@ func c11GenHist(rng *rand.Rand, maxCycles int) c11Hist {
 		h.Cycles = append(h.Cycles, c11Cycle{Keys: keys, Drain: []string{"none", "one", "half", "all", "all", "all+extra"}[rng.Intn(6)], Twice: rng.Intn(8) == 0})
 	}
 	h.AltStruct = h.Struct && rng.Intn(3) == 0
+	if rng.Intn(4) == 0 {
+		h.Prefix = []string{"sort-*.run", "*", "x*y"}[rng.Intn(3)]
+	}
 	// AutoClean: the first cycle drained to io.EOF is the sorter's last (the history stops there)
 	h.AutoClean = rng.Intn(6) == 0
 	for i := 0; i+1 < len(h.Cycles); i++ {
